@@ -67,6 +67,32 @@ pub fn tool(name: &str, args: &[String]) -> i32 {
             for i in 0..5u8 { put("scrypt_ffi", &format!("p{}", i), &[i, i + 1, i, 30 + i, 3, b'p', b'w', b'!', b's', b'a', b'l', b't']); }
             println!("seed corpora written to {}", root.display()); 0
         }
+        "oracle-dump" => {
+            // inputs and kspec outputs as JSON lines, for tools/oracle_audit.py (OpenSSL)
+            let n: u64 = args.first().and_then(|s| s.parse().ok()).unwrap_or(200); let seed: u64 = args.get(1).and_then(|s| s.parse().ok()).unwrap_or(1);
+            let hx = kspec::hex; let b = crate::gen::bytes_from;
+            for i in 0..n {
+                let s = seed.wrapping_mul(1_000_003).wrapping_add(i);
+                let l = |k: u64, m: usize| -> usize { (crate::gen::bytes_from(s ^ k, 2)[0] as usize * 256 + crate::gen::bytes_from(s ^ k, 2)[1] as usize) % m };
+                let d = b(s, l(1, 700)); println!("{}", serde_json::json!({"prim": "sha256", "in": {"data": hx(&d)}, "out": hx(&kspec::sha256(&d))}));
+                let k = b(s ^ 2, l(2, 200)); println!("{}", serde_json::json!({"prim": "hmac", "in": {"key": hx(&k), "data": hx(&d)}, "out": hx(&kspec::hmac_sha256(&k, &d))}));
+                let (salt, info, ol) = (b(s ^ 3, l(3, 100)), b(s ^ 4, l(4, 100)), 1 + l(5, if i % 20 == 0 { 8160 } else { 200 }));
+                println!("{}", serde_json::json!({"prim": "hkdf", "in": {"salt": hx(&salt), "ikm": hx(&k), "info": hx(&info), "len": ol}, "out": hx(&kspec::hkdf_sha256(&salt, &k, &info, ol))}));
+                let (iters, pl) = (1 + l(6, 5) as u32, 1 + l(7, 100)); println!("{}", serde_json::json!({"prim": "pbkdf2", "in": {"pw": hx(&k), "salt": hx(&salt), "iters": iters, "len": pl}, "out": hx(&kspec::pbkdf2_sha256(&k, &salt, iters, pl))}));
+                let (ln, r, p, dk) = (1 + l(8, 8) as u32, 1 + l(9, 6), 1 + l(10, 4), 1 + l(11, 100));
+                println!("{}", serde_json::json!({"prim": "scrypt", "in": {"pw": hx(&k), "salt": hx(&salt), "n": 1u32 << ln, "r": r, "p": p, "len": dk}, "out": hx(&kspec::scrypt(&k, &salt, 1usize << ln, r, p, dk))}));
+                let key = crate::gen::key32(s, "oa-k"); let nonce: [u8; 12] = b(s ^ 12, 12).try_into().unwrap(); let aad = b(s ^ 13, l(13, 60)); let pt = b(s ^ 14, l(14, 400));
+                let ct = kspec::aead_seal(&key, &nonce, &aad, &pt);
+                println!("{}", serde_json::json!({"prim": "aead_seal", "in": {"key": hx(&key), "nonce": hx(&nonce), "aad": hx(&aad), "pt": hx(&pt)}, "out": hx(&ct)}));
+                let mut ct2 = ct.clone(); if i % 2 == 0 && !ct2.is_empty() { let j = l(15, ct2.len()); ct2[j] ^= 1 << (i % 8); } if i % 7 == 0 { ct2.truncate(l(16, 20)); }
+                let o = kspec::aead_open(&key, &nonce, &aad, &ct2); let mut ov = vec![if o.is_some() { 1u8 } else { 0 }]; if let Some(x) = o { ov.extend_from_slice(&x); }
+                println!("{}", serde_json::json!({"prim": "aead_open", "in": {"key": hx(&key), "nonce": hx(&nonce), "aad": hx(&aad), "ct": hx(&ct2)}, "out": hx(&ov)}));
+                let sk = crate::gen::key32(s, "oa-sk"); let mut u = crate::gen::key32(s, "oa-u"); if i % 5 == 0 { u[31] |= 0x80; } if i % 11 == 0 { let lo = crate::gen::low_order_points(); u = lo[(i as usize) % lo.len()]; }
+                println!("{}", serde_json::json!({"prim": "x25519", "in": {"k": hx(&sk), "u": hx(&u)}, "out": hx(&kspec::x25519(&sk, &u))}));
+                println!("{}", serde_json::json!({"prim": "x25519_base", "in": {"k": hx(&sk)}, "out": hx(&kspec::x25519_base(&sk))}));
+            }
+            0
+        }
         "bench-cli" => {
             let n = 500; let t = std::time::Instant::now();
             for _ in 0..n { let sb = crate::cli::Sandbox::new(); sb.write("a", b"x"); sb.write("b", b"y"); sb.write("c", b"z"); }
